@@ -321,6 +321,16 @@ class Builder:
                     continue
                 lets.append(st)
                 continue
+            if st["k"] == "expr" and st["e"]["k"] == "while" and i == len(stmts) - 2:
+                # `let mut acc = FIRST.parse_next(input)?;
+                #  while let Some(v) = opt(STEP).parse_next(input)? { acc = F(acc, v); }
+                #  Ok(acc)`
+                # is the hand-written form of `repeat(0.., STEP).fold(|| acc, |acc, v| F(acc, v))` after FIRST: opt() stops the
+                # loop on a recoverable error without consuming, `?` passes an unrecoverable one on — what winnow's fold does
+                fo = self._while_fold(st["e"], stmts[i + 1], steps, env)
+                if fo is not None:
+                    tail = fo
+                    break
             if st["k"] == "expr":
                 e = st["e"]
                 if last and not st["semi"]:
@@ -400,6 +410,37 @@ class Builder:
                     key, ts = r
                     return N("ref", e, fn=key, targs=ts, extra=e["args"][1:])
         return None
+
+    def _while_fold(self, w, after, steps, env):
+        c = w["cond"]
+        if c.get("k") != "letexpr":
+            return None
+        pat = c["pat"]
+        if not (pat["k"] == "tstruct" and pat["segs"] == ["Some"] and len(pat["elems"]) == 1):
+            return None
+        inv = self._invocation(c["e"], env)
+        if inv is None or not (inv["t"] == "alt" and inv.get("opt")):
+            return None
+        body = [x for x in w["body"]["stmts"] if x["k"] != "item"]
+        if len(body) != 1 or body[0]["k"] != "expr" or body[0]["e"]["k"] != "assign":
+            return None
+        asg = body[0]["e"]
+        acc = asg["lhs"]["segs"][0] if asg["lhs"]["k"] == "path" and len(asg["lhs"]["segs"]) == 1 else None
+        bound = [s_ for s_ in steps if s_["pat"].get("k") == "ident" and s_["pat"].get("name") == acc]
+        if acc is None or len(bound) != 1:
+            return None
+        ae = after.get("e") if after["k"] == "expr" and not after.get("semi") else None
+        if not (ae and ae["k"] == "call" and ae["f"].get("k") == "path" and ae["f"]["segs"] == ["Ok"] and len(ae["args"]) == 1 and ae["args"][0].get("k") == "path" and ae["args"][0]["segs"] == [acc]):
+            return None
+        # the input may not be touched by the loop body (only by the condition)
+        inp = env.get("__input")
+        if F.find_all(asg["rhs"], lambda n_: n_.get("k") == "path" and n_["segs"] == [inp]):
+            return None
+        l = w.get("l")
+        accp = {"k": "path", "l": l, "segs": [acc], "gen": [[]], "qself": None, "global": False}
+        init = {"k": "closure", "l": l, "params": [], "body": {"k": "mcall", "l": l, "recv": accp, "m": "clone", "targs": [], "args": []}, "move": True}
+        step = {"k": "closure", "l": l, "params": [{"k": "ident", "l": l, "name": acc, "by_ref": False, "mut": False, "sub": None}, pat["elems"][0]], "body": asg["rhs"], "move": False}
+        return N("fold", w, p=N("rep", w, min=0, max=None, p=inv["alts"][0], from_while=w), init=init, step=step, from_while=w)
 
     def _always_ok(self, e, depth=0):
         """Every way through `e` ends in `Ok(..)` or diverges (unreachable!/panic!)."""
